@@ -167,7 +167,7 @@ func asFlowStep(cfg LeafCfg, scr LeafScript, t *tokGen) FlowScenario {
 		Nodes: []NodeDef{{ID: 0, Leaf: &cfg}, {ID: 1, Leaf: &succ},
 			{ID: 2, Flow: &FlowDef{Start: ip(0), Ops: []Conn{{Src: 0, Action: "a", Dst: ip(1)}, {Src: 0, Action: "default", Dst: ip(1)}}}}},
 		LeafScripts: []LeafScript{scr, s1}, BatchScripts: []BatchScript{},
-		Steps: []Step{{Run: ip(2)}}}
+		Steps: []Step{{Run: ip(2)}, {Run: ip(2)}}} // twice: every run gets its own store; the flow object is reused
 }
 
 // genLeafRuns: node kinds x budgets x outcome scripts (C01, C02, C17, C18)
@@ -368,6 +368,9 @@ func randLeafCfg(r *rng, funcStyle bool) LeafCfg {
 		break
 	}
 	k.Budget = 1 + r.intn(3)
+	if k.Fb == "absent" && !k.Retryable && r.chance(50) {
+		k.Impl = "value" // the plain Node implementation is used by value (node 0: the zero value of its type)
+	}
 	return k
 }
 
